@@ -55,6 +55,9 @@ pub const QUERY_POOL: &[&str] = &[
     "(attribute object: (_) @dup) @dup",
     // four captures on one pattern step: tree-sitter keeps three and reports the fourth as occurring once, without a node
     "(assignment left: (identifier) @q1 @q2 @q3 @q4) @qa",
+    // rooted at a node that can be EMPTY and zero-width at the end of the text (`if x:` without a final newline)
+    "(block) @eb",
+    "(block (_)* @ebs) @eb2",
     // predicate strings that END in an escaped backslash (the closing quote follows a backslash that is itself escaped)
     "((identifier) @id (#eq? @id \"a\\\\\"))",
     "((string) @s (#match? @s \"\\\\\\\\\"))",
@@ -267,7 +270,8 @@ impl<'a> Gen<'a> {
         self.has_fault = true;
         Some(
             match want {
-                Ty::Bool => "\"notbool\"",
+                // wrong type, or a boolean function given a non-boolean AFTER the argument that decides its value
+                Ty::Bool => *self.r.pick(&["\"notbool\"", "\"notbool\"", "(and #false 1)", "(or #true \"x\")", "(and #true #false #null)", "(not 1)", "(or #false #true [])"]),
                 Ty::Int => "\"notint\"",
                 // wrong type, or a function that fails on its data (invalid regular expression, missing format argument)
                 Ty::Str => *self.r.pick(&["17", "17", "(replace \"a-b-c\" \"(\" \"+\")", "(replace \"abc\" \"[z-a]\" \"\")", "(format \"{}{}\" 1)"]),
@@ -616,7 +620,11 @@ impl<'a> Gen<'a> {
 
     /// embeds a faulty expression `e` in a statement; returns (prefix lines, fault line without pad, form)
     fn embed_expr(&mut self, e: &str) -> (String, String, &'static str) {
-        let wrapped: (String, &'static str) = match self.r.below(9) {
+        let wrapped: (String, &'static str) = match self.r.below(12) {
+            // after a NON-LOCAL element of a list / set literal (a `var` is never local): every element is checked
+            9 => (format!("[znl, {}]", e), "list-element-after-non-local"),
+            10 => (format!("{{znl, 7, {}}}", e), "set-element-after-non-local"),
+            11 => (format!("[[znl], [{}, 1]]", e), "nested-list-after-non-local"),
             0 => (e.to_string(), "bare"),
             1 => (format!("(plus 1 {})", e), "call-arg"),
             2 => (format!("[{}]", e), "list-element"),
@@ -628,7 +636,8 @@ impl<'a> Gen<'a> {
             _ => (format!("{{ [{}] for zq in [1, 2] }}", e), "set-comprehension-element"),
         };
         let (w, form) = wrapped;
-        match self.r.below(8) {
+        let extra = if form.ends_with("after-non-local") { "var znl = 1\n" } else { "" };
+        let (pre, line, form) = match self.r.below(8) {
             0 => (String::new(), format!("let zf = {}", w), form),
             1 => (String::new(), format!("var zf = {}", w), form),
             2 => ("node zn\n".to_string(), format!("attr (zn) k = {}", w), form),
@@ -637,7 +646,8 @@ impl<'a> Gen<'a> {
             5 => (String::new(), format!("if (is-null {}) {{ }}", w), form),
             6 => (String::new(), format!("for zi in [{}] {{ }}", w), form),
             _ => ("var zm = 1\n".to_string(), format!("set zm = {}", w), form),
-        }
+        };
+        (format!("{}{}", extra, pre), line, form)
     }
 
     fn emit_fault(&mut self, indent: usize, rule: &str, variant: &str, form: &str, prefix: &str, line: &str, loc_token: Option<&str>) -> String {
@@ -1502,7 +1512,9 @@ pub fn live_nonlocal_pair(r: &mut Rng) -> (String, String, String) {
 fn live_nonlocal_parts(r: &mut Rng) -> (String, String, String, String, String) {
     let (pat, cap) = *r.pick(&[("(identifier) @lv", "@lv"), ("(integer) @lv", "@lv"), ("(call function: (_) @lv)", "@lv"), ("(assignment left: (_) @lv)", "@lv")]);
     let read = format!("{}.zsv", cap);
-    let (prefix, name, how): (String, String, &str) = match r.below(12) {
+    let (prefix, name, how): (String, String, &str) = match r.below(14) {
+        // loop-carried: the read comes textually BEFORE the assignment of the non-local value, in a body that runs twice
+        12 | 13 => ("LOOP".to_string(), "zm".into(), "loop-carried-read-before-set"),
         0 => (String::new(), read.clone(), "direct"),
         1 => (format!("  let zl = {}\n", read), "zl".into(), "let"),
         2 => (format!("  var zm = {}\n", read), "zm".into(), "var"),
@@ -1525,5 +1537,9 @@ fn live_nonlocal_parts(r: &mut Rng) -> (String, String, String, String, String) 
         _ => (format!("  node zc\n  attr (zc) els = [ zq2 for zq2 in [{}] ]\n", name), "comprehension"),
     };
     let definer = format!("  let {} = (source-text {})\n", read, cap);
+    if prefix == "LOOP" {
+        let body = format!("  var zm = \"a\"\n  for zq in [1, 2] {{\n{}    set zm = {}\n  }}\n", consumer, read);
+        return (pat.to_string(), cap.to_string(), definer, body, format!("{}-into-{}", how, what));
+    }
     (pat.to_string(), cap.to_string(), definer, format!("{}{}", prefix, consumer), format!("{}-into-{}", how, what))
 }
